@@ -353,6 +353,62 @@ var (
 	driverStop time.Time
 )
 
+// The watchdog counts time in which THIS PROCESS was running, in ticks: a tick that arrives late (the process was
+// stopped, frozen or starved of CPU for seconds, as seen under heavy machine load: all timers then fire at once when it
+// resumes) counts as one tick, not as the wall-clock time that went by.
+const tick = 50 * time.Millisecond
+
+// waitTicks waits for a value on ch for at most d of process time; ok = false: d went by
+func waitTicks(ch <-chan error, d time.Duration) (err error, ok bool) {
+	for waited := time.Duration(0); waited < d; waited += tick {
+		select {
+		case err = <-ch:
+			return err, true
+		case <-time.After(tick):
+		}
+	}
+	select { // the run may have ended during the last tick
+	case err = <-ch:
+		return err, true
+	default:
+		return nil, false
+	}
+}
+
+// stalls: intervals in which the process did not get to run for stallMin or more (heartbeat of 20 ms).  A run that
+// overlaps one is not judged: its time stamps say nothing about the scheduler.
+const stallMin = time.Second
+
+var (
+	stallMu sync.Mutex
+	stalls  [][2]time.Time
+)
+
+func heartbeat() {
+	for {
+		t := time.Now()
+		time.Sleep(20 * time.Millisecond)
+		if n := time.Now(); n.Sub(t) >= stallMin {
+			stallMu.Lock()
+			stalls = append(stalls, [2]time.Time{t, n})
+			stallMu.Unlock()
+			fmt.Fprintf(os.Stderr, "sched driver: the process was stalled for %d ms\n", n.Sub(t).Milliseconds())
+		}
+	}
+}
+
+func stalledSince(t0 time.Time) time.Duration {
+	stallMu.Lock()
+	defer stallMu.Unlock()
+	var worst time.Duration
+	for _, iv := range stalls {
+		if iv[1].After(t0) && iv[1].Sub(iv[0]) > worst {
+			worst = iv[1].Sub(iv[0])
+		}
+	}
+	return worst
+}
+
 func driverExhausted() string {
 	if atomic.LoadInt32(&hungCount) >= maxHung {
 		return "skipped: too many runs of this driver did not terminate"
@@ -534,19 +590,16 @@ func runCase(c *Case, id int, logDir string) {
 			go w.doStop()
 		}
 	}
-	var serr error
-	select {
-	case serr = <-fin:
-	case <-time.After(watchdog):
+	serr, ended := waitTicks(fin, watchdog)
+	if !ended {
 		c.Hung = true
 		atomic.AddInt32(&hungCount, 1)
 		close(w.stop)
 		go sc.Signal(g, syscall.SIGKILL, nil, false) // try to unblock: a stopped run must end
 		cancel()
-		select {
-		case serr = <-fin:
+		if serr, ended = waitTicks(fin, 3*time.Second); ended {
 			c.Note = "did not terminate by itself within the watchdog time; ended after a stop request"
-		case <-time.After(3 * time.Second):
+		} else {
 			c.Note = "did not terminate within the watchdog time, not even after a stop request: run abandoned"
 		}
 	}
@@ -579,6 +632,19 @@ func runCase(c *Case, id int, logDir string) {
 	c.Err = serr != nil
 	c.StatusEnd = int(sc.Status(g))
 	c.StartedUs = g.StartAt().Sub(w.t0).Microseconds()
+	// a run during which this process was stalled (stopped / frozen / starved for a second or more) is not judged
+	if d := stalledSince(w.t0); d > 0 {
+		if c.Hung {
+			atomic.AddInt32(&hungCount, -1)
+		}
+		wasAbandoned := strings.HasSuffix(c.Note, "abandoned")
+		c.Final, c.Events, c.Hung = nil, []Ev{}, false
+		c.Note = fmt.Sprintf("skipped: the driver process was stalled for %d ms during this run: run not judged", d.Milliseconds())
+		if wasAbandoned {
+			c.Note += ", abandoned"
+		}
+		return
+	}
 	// a run whose preconditions spawn processes is only judged if this process can still spawn one (resource limits of
 	// the driver itself must not be read as behaviour of the scheduler)
 	for _, sc0 := range c.Steps {
@@ -1197,6 +1263,7 @@ func main() {
 		os.Exit(code)
 	}
 	startEnv = os.Environ()
+	go heartbeat()
 	log.SetOutput(io.Discard)
 	if len(os.Args) > 3 && os.Args[2] == "agentreal" {
 		agentRealMain(os.Args[1], os.Args[3])
